@@ -206,19 +206,20 @@ def borrowed_and_name_cases(ctx):
     for cls, mk in ((AnalogWaveform, lambda k, props: AnalogWaveform.from_array_1d(np.arange(k, dtype=np.float64), np.float64, extended_properties=props)),
                     (Spectrum, lambda k, props: Spectrum.from_array_1d(np.arange(k, dtype=np.float64), np.float64, extended_properties=props)),
                     (DigitalWaveform, lambda k, props: DigitalWaveform.from_lines(np.ones((k, 2), np.uint8), extended_properties=props))):
-        for odd in (np.float32(2.0), np.int64(3), None, [1, 2], b"x", 1 + 2j, ("t",)):
+        for odd, key in [(o_, k_) for o_ in (np.float32(2.0), np.int64(3), None, [1, 2], b"x", 1 + 2j, ("t",), 5, True, 2.5)
+                         for k_ in ("odd", "NI_UnitDescription", "NI_ChannelName", "NI_LineNames")]:
             for many in (False, True):
                 recv = mk(2, {"k": "v"})
-                src = mk(3, {"odd": odd, "plain": "p"})
+                src = mk(3, {key: odd, "plain": "p"})
                 before = observe(recv)
                 o = outcome(lambda: recv.append([mk(1, {"first": "1"}), src] if many else src))
                 after = observe(recv)
                 n += 1
-                ctx.case(("odd-property", cls.__name__, type(odd).__name__, many))
+                ctx.case(("odd-property", cls.__name__, key, type(odd).__name__, many))
                 if o[0] == "err" and after != before:
                     diff = [k for k in before if before.get(k) != after.get(k)]
                     ctx.violation(what="append rejected because of a source's property value, after the receiver was already changed", cls=cls.__name__,
-                                  value=repr(odd), error=show(o)[:100], changed=str(diff), observed=str({k: after.get(k) for k in diff})[:200],
+                                  key=key, value=repr(odd), error=show(o)[:100], changed=str(diff), observed=str({k: after.get(k) for k in diff})[:200],
                                   required=str({k: before.get(k) for k in diff})[:200])
                     return n
     # signal names: a value that is not a str is refused and changes nothing
